@@ -122,6 +122,7 @@ def generate(rng, tier):
                     out.append(mk(treegen.case_line("v", sub, sc, batch), model=False)); batch = []
         if batch: out.append(mk(treegen.case_line("v", sub, sc, batch), model=False))
     import stress
+    out += [mk("devrep %d %s %s" % (n, hexs(f), hexs(b"*STB?;:SYST:ERR:COUN?")), model=False) for n in (255, 256, 257, 300, 65536, 70000) for f in (b"FOO", b"*ESE 256")]
     return out + [mk(l, model=True) for l in stress.tree_stream(tier)]
 
 
